@@ -468,12 +468,14 @@ func ginitCases(tier string, seed uint64) []fw.Case {
 	}
 	g := &ginitGen{r: fw.NewRng(seed ^ 0x61C03)}
 	out = append(out, ginitRandom(g, n, "c03-ginit-rnd")...)
-	// The construct of the finding is generated only as a small poisoned workload, and only once
-	// the finding is listed as open in known_findings.txt (unlisted, it would make the check report
-	// the defect of the unchanged tree on every run; see FINDINGS.md).
+	// Range ends and indices as mutable positions (finding KF-c03-const-range-index, repaired in
+	// /repo): part of the workload; tagged as a poisoned workload should the finding be listed as
+	// open again.
+	gp := &ginitGen{r: fw.NewRng(seed ^ 0x61C04), poisoned: true}
 	if fw.KFOpen(KFConstRangeIndex) {
-		gp := &ginitGen{r: fw.NewRng(seed ^ 0x61C04), poisoned: true}
 		out = append(out, ginitRandom(gp, 24, "c03-ginitp-"+TagConstRangeIndex, TagConstRangeIndex)...)
+	} else {
+		out = append(out, ginitRandom(gp, 24, "c03-ginitp-"+TagConstRangeIndex)...)
 	}
 	return out
 }
